@@ -274,7 +274,7 @@ func (r *Report) Finish(verifDir string, loadInfo map[string]any) int {
 	}
 	if len(viol) > 0 {
 		for _, o := range viol {
-			fmt.Printf("  FAIL %s %s [%s] %s: %s\n", o.Rule, o.Key, o.Status, o.Pos, o.Reason)
+			fmt.Printf("  FAIL %s %s [%s] %s: %s\n", o.Rule, o.Key, o.Status, o.Pos, trunc(o.Reason, 600))
 		}
 		fmt.Printf("VIOLATION property=%s replay=%s\n", r.Prop, violPath)
 		return 1
